@@ -38,75 +38,116 @@ pub const T_STRING: u8 = 3;
 pub const T_ARRAY: u8 = 4;
 pub const T_OBJECT: u8 = 5;
 
+/// A JSON value of the model: twelve single BYTES (tag, bool, arena index, little-endian number).
+///
+/// Why bytes: worterbuch stores values as `ValueEntry::{Cas(Value, u64), Plain(Value)}` - an enum with two
+/// data-carrying variants, which Kani lowers to a union. For such a value sitting in heap memory CBMC only
+/// constant-folds single-byte reads (measured: `u8` fields fold, `u16`/`u32`/`u64`/`Vec` fields of the very
+/// same struct do not). So every field is a `u8`; numbers are reassembled from their bytes, and the payload
+/// of strings / arrays / objects lives in a side arena addressed by a byte index. Values are immutable,
+/// `Clone` is a copy of the twelve bytes (payload shared), nothing is ever freed.
+#[derive(Clone, Copy)]
 pub struct Value {
     tag: u8,
     b: u8,
-    n: u64,
-    // The heap-backed fields are ManuallyDrop and released by `Drop for Value` according to the tag:
-    // compiler-generated drop glue would recurse Value -> Vec<Value> -> Value ... for EVERY value,
-    // and CBMC unwinds that recursion to the bound even when the vectors are empty (measured: OOM).
-    s: core::mem::ManuallyDrop<NoNiche<String>>,
-    #[cfg(feature = "nested")]
-    a: core::mem::ManuallyDrop<NoNiche<Vec<Value>>>,
-    #[cfg(feature = "nested")]
-    o: core::mem::ManuallyDrop<NoNiche<Vec<(String, Value)>>>,
+    ix_lo: u8,
+    ix_hi: u8,
+    n: [u8; 8],
 }
 
-/// Under Kani a model value LEAKS its buffers (no Drop at all): when the engine cannot fold the variant of
-/// an enclosing `ValueEntry` (niche-encoded, see above) it drops a `Value` whose tag is symbolic, and the
-/// array/object branches of a tag-driven drop recurse to the unwinding bound (measured: out of memory in
-/// `Worterbuch::cset`). Freeing memory is not observable by any property.
-#[cfg(not(kani))]
-impl Drop for Value {
-    fn drop(&mut self) {
-        unsafe {
-            match self.tag {
-                T_STRING => core::mem::ManuallyDrop::drop(&mut self.s),
-                #[cfg(feature = "nested")]
-                T_ARRAY => core::mem::ManuallyDrop::drop(&mut self.a),
-                #[cfg(feature = "nested")]
-                T_OBJECT => core::mem::ManuallyDrop::drop(&mut self.o),
-                _ => {}
-            }
+mod arena {
+    use super::Value;
+    pub const CAP: usize = 48;
+    pub struct Arena {
+        pub strs: [&'static str; CAP],
+        pub n_strs: usize,
+        pub arrs: [&'static [Value]; CAP],
+        pub n_arrs: usize,
+        pub objs: [&'static [(&'static str, Value)]; CAP],
+        pub n_objs: usize,
+    }
+    impl Arena {
+        pub const fn new() -> Arena {
+            Arena { strs: [""; CAP], n_strs: 0, arrs: [&[]; CAP], n_arrs: 0, objs: [&[]; CAP], n_objs: 0 }
         }
+    }
+    #[cfg(kani)]
+    static mut ARENA: Arena = Arena::new();
+    #[cfg(kani)]
+    pub fn with<R>(f: impl FnOnce(&mut Arena) -> R) -> R {
+        unsafe { f(&mut *core::ptr::addr_of_mut!(ARENA)) }
+    }
+    // natively every test thread has its own arena
+    #[cfg(not(kani))]
+    thread_local! { static ARENA: core::cell::RefCell<Arena> = core::cell::RefCell::new(Arena::new()); }
+    #[cfg(not(kani))]
+    pub fn with<R>(f: impl FnOnce(&mut Arena) -> R) -> R {
+        ARENA.with(|a| f(&mut a.borrow_mut()))
+    }
+    fn full() -> ! {
+        #[cfg(kani)]
+        kani::assume(false);
+        panic!("serde_json model: value arena exhausted")
+    }
+    pub fn put_str(s: String) -> usize {
+        let s: &'static str = Box::leak(s.into_boxed_str());
+        with(|a| {
+            if a.n_strs >= CAP {
+                full()
+            }
+            a.strs[a.n_strs] = s;
+            a.n_strs += 1;
+            a.n_strs - 1
+        })
+    }
+    pub fn put_arr(v: Vec<Value>) -> usize {
+        let v: &'static [Value] = Box::leak(v.into_boxed_slice());
+        with(|a| {
+            if a.n_arrs >= CAP {
+                full()
+            }
+            a.arrs[a.n_arrs] = v;
+            a.n_arrs += 1;
+            a.n_arrs - 1
+        })
+    }
+    pub fn put_obj(v: Vec<(String, Value)>) -> usize {
+        let v: Vec<(&'static str, Value)> = v.into_iter().map(|(k, x)| (&*Box::leak(k.into_boxed_str()), x)).collect();
+        let v: &'static [(&'static str, Value)] = Box::leak(v.into_boxed_slice());
+        with(|a| {
+            if a.n_objs >= CAP {
+                full()
+            }
+            a.objs[a.n_objs] = v;
+            a.n_objs += 1;
+            a.n_objs - 1
+        })
     }
 }
 
 #[allow(non_snake_case, non_upper_case_globals)]
 impl Value {
-    const fn raw(tag: u8, b: u8, n: u64, s: String) -> Value {
-        Value {
-            tag,
-            b,
-            n,
-            s: core::mem::ManuallyDrop::new(NoNiche::new(s)),
-            #[cfg(feature = "nested")]
-            a: core::mem::ManuallyDrop::new(NoNiche::new(Vec::new())),
-            #[cfg(feature = "nested")]
-            o: core::mem::ManuallyDrop::new(NoNiche::new(Vec::new())),
-        }
+    const fn raw(tag: u8, b: u8, ix: usize, n: u64) -> Value {
+        Value { tag, b, ix_lo: (ix & 0xff) as u8, ix_hi: ((ix >> 8) & 0xff) as u8, n: n.to_le_bytes() }
     }
-    pub const Null: Value = Value::raw(T_NULL, 0, 0, String::new());
+    fn ix(&self) -> usize {
+        (self.ix_lo as usize) | ((self.ix_hi as usize) << 8)
+    }
+    pub const Null: Value = Value::raw(T_NULL, 0, 0, 0);
     pub fn Bool(b: bool) -> Value {
-        Value::raw(T_BOOL, b as u8, 0, String::new())
+        Value::raw(T_BOOL, b as u8, 0, 0)
     }
     pub fn Number(n: u64) -> Value {
-        Value::raw(T_NUMBER, 0, n, String::new())
+        Value::raw(T_NUMBER, 0, 0, n)
     }
     pub fn String(s: String) -> Value {
-        Value::raw(T_STRING, 0, 0, s)
+        Value::raw(T_STRING, 0, arena::put_str(s), 0)
     }
-    #[cfg(feature = "nested")]
     pub fn Array(a: Vec<Value>) -> Value {
-        let mut v = Value::raw(T_ARRAY, 0, 0, String::new());
-        v.a = core::mem::ManuallyDrop::new(NoNiche::new(a));
-        v
+        Value::raw(T_ARRAY, 0, arena::put_arr(a), 0)
     }
-    #[cfg(feature = "nested")]
     pub fn Object(o: Vec<(String, Value)>) -> Value {
-        let mut v = Value::raw(T_OBJECT, 0, 0, String::new());
-        v.o = core::mem::ManuallyDrop::new(NoNiche::new(o));
-        v
+        Value::raw(T_OBJECT, 0, arena::put_obj(o), 0)
     }
     pub fn kind(&self) -> u8 {
         self.tag
@@ -118,55 +159,30 @@ impl Value {
         if self.tag == T_BOOL { Some(self.b != 0) } else { None }
     }
     pub fn as_u64(&self) -> Option<u64> {
-        if self.tag == T_NUMBER { Some(self.n) } else { None }
+        if self.tag == T_NUMBER { Some(u64::from_le_bytes(self.n)) } else { None }
     }
     pub fn as_str(&self) -> Option<&str> {
-        if self.tag == T_STRING { Some(self.s.get().as_str()) } else { None }
+        if self.tag == T_STRING {
+            let i = self.ix();
+            Some(arena::with(|a| a.strs[i]))
+        } else {
+            None
+        }
     }
-    #[cfg(feature = "nested")]
-    pub fn as_array(&self) -> Option<&Vec<Value>> {
-        if self.tag == T_ARRAY { Some(self.a.get()) } else { None }
+    pub fn as_array(&self) -> Option<&[Value]> {
+        if self.tag == T_ARRAY {
+            let i = self.ix();
+            Some(arena::with(|a| a.arrs[i]))
+        } else {
+            None
+        }
     }
-    #[cfg(feature = "nested")]
-    pub fn as_object(&self) -> Option<&Vec<(String, Value)>> {
-        if self.tag == T_OBJECT { Some(self.o.get()) } else { None }
-    }
-    /// move the string payload out (the rest of the value owns nothing afterwards)
-    fn take_string(mut self) -> String {
-        let s = core::mem::take(self.s.get_mut());
-        self.tag = T_NULL;
-        s
-    }
-    #[cfg(feature = "nested")]
-    fn take_array(mut self) -> Vec<Value> {
-        let a = core::mem::take(self.a.get_mut());
-        self.tag = T_NULL;
-        a
-    }
-    #[cfg(feature = "nested")]
-    fn take_object(mut self) -> Vec<(String, Value)> {
-        let o = core::mem::take(self.o.get_mut());
-        self.tag = T_NULL;
-        o
-    }
-    /// harness helper: is this `Bool(b)`?
-    pub fn is_bool(&self, b: bool) -> bool {
-        self.tag == T_BOOL && (self.b != 0) == b
-    }
-}
-
-impl Clone for Value {
-    fn clone(&self) -> Self {
-        Value {
-            tag: self.tag,
-            b: self.b,
-            n: self.n,
-            // only string values own a buffer
-            s: core::mem::ManuallyDrop::new(NoNiche::new(if self.tag == T_STRING { self.s.get().clone() } else { String::new() })),
-            #[cfg(feature = "nested")]
-            a: core::mem::ManuallyDrop::new(NoNiche::new(if self.tag == T_ARRAY { self.a.get().clone() } else { Vec::new() })),
-            #[cfg(feature = "nested")]
-            o: core::mem::ManuallyDrop::new(NoNiche::new(if self.tag == T_OBJECT { self.o.get().clone() } else { Vec::new() })),
+    pub fn as_object(&self) -> Option<&[(&'static str, Value)]> {
+        if self.tag == T_OBJECT {
+            let i = self.ix();
+            Some(arena::with(|a| a.objs[i]))
+        } else {
+            None
         }
     }
 }
@@ -180,11 +196,9 @@ impl PartialEq for Value {
             T_NULL => true,
             T_BOOL => self.b == o.b,
             T_NUMBER => self.n == o.n,
-            T_STRING => self.s.get() == o.s.get(),
-            #[cfg(feature = "nested")]
-            T_ARRAY => self.a.get() == o.a.get(),
-            #[cfg(feature = "nested")]
-            T_OBJECT => self.o.get() == o.o.get(),
+            T_STRING => self.as_str() == o.as_str(),
+            T_ARRAY => self.as_array() == o.as_array(),
+            T_OBJECT => self.as_object() == o.as_object(),
             _ => false,
         }
     }
@@ -207,8 +221,8 @@ impl fmt::Display for Value {
         match self.tag {
             T_NULL => f.write_str("null"),
             T_BOOL => write!(f, "{}", self.b != 0),
-            T_NUMBER => write!(f, "{}", self.n),
-            T_STRING => write!(f, "\"{}\"", self.s.get()),
+            T_NUMBER => write!(f, "{}", u64::from_le_bytes(self.n)),
+            T_STRING => write!(f, "\"{}\"", self.as_str().unwrap_or("")),
             _ => f.write_str("[..]"),
         }
     }
@@ -239,22 +253,20 @@ impl Serialize for Value {
         match self.tag {
             T_NULL => s.serialize_unit(),
             T_BOOL => s.serialize_bool(self.b != 0),
-            T_NUMBER => s.serialize_u64(self.n),
-            T_STRING => s.serialize_str(self.s.get()),
-            #[cfg(feature = "nested")]
+            T_NUMBER => s.serialize_u64(u64::from_le_bytes(self.n)),
+            T_STRING => s.serialize_str(self.as_str().unwrap_or("")),
             T_ARRAY => {
                 use ser::SerializeSeq;
-                let v = self.a.get();
+                let v = self.as_array().unwrap_or(&[]);
                 let mut q = s.serialize_seq(Some(v.len()))?;
                 for e in v {
                     q.serialize_element(e)?;
                 }
                 q.end()
             }
-            #[cfg(feature = "nested")]
             T_OBJECT => {
                 use ser::SerializeMap;
-                let v = self.o.get();
+                let v = self.as_object().unwrap_or(&[]);
                 let mut q = s.serialize_map(Some(v.len()))?;
                 for (k, e) in v {
                     q.serialize_entry(k, e)?;
@@ -293,16 +305,14 @@ impl<'de> Visitor<'de> for ValueVisitor {
     fn visit_string<E>(self, s: String) -> core::result::Result<Value, E> {
         Ok(Value::String(s))
     }
-    #[cfg(feature = "nested")]
-    fn visit_seq<A: de::SeqAccess<'de>>(self, mut a: A) -> core::result::Result<Value, A::Error> {
+        fn visit_seq<A: de::SeqAccess<'de>>(self, mut a: A) -> core::result::Result<Value, A::Error> {
         let mut v = Vec::new();
         while let Some(e) = a.next_element()? {
             v.push(e);
         }
         Ok(Value::Array(v))
     }
-    #[cfg(feature = "nested")]
-    fn visit_map<A: de::MapAccess<'de>>(self, mut a: A) -> core::result::Result<Value, A::Error> {
+        fn visit_map<A: de::MapAccess<'de>>(self, mut a: A) -> core::result::Result<Value, A::Error> {
         let mut v = Vec::new();
         while let Some((k, e)) = a.next_entry::<String, Value>()? {
             v.push((k, e));
@@ -364,21 +374,13 @@ mod value_ser {
     use serde::ser::{self, Impossible, Serialize};
 
     pub struct Ser;
-    #[cfg(feature = "nested")]
-    pub struct SeqSer(Vec<Value>);
-    #[cfg(feature = "nested")]
-    pub struct MapSer(Vec<(String, Value)>, Option<String>);
-    #[cfg(feature = "nested")]
-    pub struct VariantSer(&'static str, Vec<(String, Value)>);
-    #[cfg(not(feature = "nested"))]
-    pub type SeqSer = Impossible<Value, Error>;
-    #[cfg(not(feature = "nested"))]
-    pub type MapSer = Impossible<Value, Error>;
-    #[cfg(not(feature = "nested"))]
-    pub type VariantSer = Impossible<Value, Error>;
+        pub struct SeqSer(Vec<Value>);
+        pub struct MapSer(Vec<(String, Value)>, Option<String>);
+        pub struct VariantSer(&'static str, Vec<(String, Value)>);
 
-    #[cfg(feature = "nested")]
-    impl ser::SerializeSeq for SeqSer {
+
+
+        impl ser::SerializeSeq for SeqSer {
         type Ok = Value;
         type Error = Error;
         fn serialize_element<T: ?Sized + Serialize>(&mut self, v: &T) -> Result<(), Error> {
@@ -389,8 +391,7 @@ mod value_ser {
             Ok(Value::Array(self.0))
         }
     }
-    #[cfg(feature = "nested")]
-    impl ser::SerializeTuple for SeqSer {
+        impl ser::SerializeTuple for SeqSer {
         type Ok = Value;
         type Error = Error;
         fn serialize_element<T: ?Sized + Serialize>(&mut self, v: &T) -> Result<(), Error> {
@@ -400,8 +401,7 @@ mod value_ser {
             ser::SerializeSeq::end(self)
         }
     }
-    #[cfg(feature = "nested")]
-    impl ser::SerializeTupleStruct for SeqSer {
+        impl ser::SerializeTupleStruct for SeqSer {
         type Ok = Value;
         type Error = Error;
         fn serialize_field<T: ?Sized + Serialize>(&mut self, v: &T) -> Result<(), Error> {
@@ -411,8 +411,7 @@ mod value_ser {
             ser::SerializeSeq::end(self)
         }
     }
-    #[cfg(feature = "nested")]
-    impl ser::SerializeMap for MapSer {
+        impl ser::SerializeMap for MapSer {
         type Ok = Value;
         type Error = Error;
         fn serialize_key<T: ?Sized + Serialize>(&mut self, k: &T) -> Result<(), Error> {
@@ -434,8 +433,7 @@ mod value_ser {
             Ok(Value::Object(self.0))
         }
     }
-    #[cfg(feature = "nested")]
-    impl ser::SerializeStruct for MapSer {
+        impl ser::SerializeStruct for MapSer {
         type Ok = Value;
         type Error = Error;
         fn serialize_field<T: ?Sized + Serialize>(&mut self, k: &'static str, v: &T) -> Result<(), Error> {
@@ -446,8 +444,7 @@ mod value_ser {
             Ok(Value::Object(self.0))
         }
     }
-    #[cfg(feature = "nested")]
-    impl ser::SerializeStructVariant for VariantSer {
+        impl ser::SerializeStructVariant for VariantSer {
         type Ok = Value;
         type Error = Error;
         fn serialize_field<T: ?Sized + Serialize>(&mut self, k: &'static str, v: &T) -> Result<(), Error> {
@@ -458,8 +455,7 @@ mod value_ser {
             Ok(Value::Object(vec![(self.0.to_owned(), Value::Object(self.1))]))
         }
     }
-    #[cfg(feature = "nested")]
-    impl ser::SerializeTupleVariant for VariantSer {
+        impl ser::SerializeTupleVariant for VariantSer {
         type Ok = Value;
         type Error = Error;
         fn serialize_field<T: ?Sized + Serialize>(&mut self, v: &T) -> Result<(), Error> {
@@ -502,40 +498,22 @@ mod value_ser {
         fn serialize_unit_struct(self, _: &'static str) -> Result<Value, Error> { Ok(Value::Null) }
         fn serialize_unit_variant(self, _: &'static str, _: u32, variant: &'static str) -> Result<Value, Error> { Ok(Value::String(variant.to_owned())) }
         fn serialize_newtype_struct<T: ?Sized + Serialize>(self, _: &'static str, v: &T) -> Result<Value, Error> { v.serialize(self) }
-        #[cfg(feature = "nested")]
-        fn serialize_newtype_variant<T: ?Sized + Serialize>(self, _: &'static str, _: u32, variant: &'static str, v: &T) -> Result<Value, Error> {
+                fn serialize_newtype_variant<T: ?Sized + Serialize>(self, _: &'static str, _: u32, variant: &'static str, v: &T) -> Result<Value, Error> {
             Ok(Value::Object(vec![(variant.to_owned(), v.serialize(Ser)?)]))
         }
-        #[cfg(not(feature = "nested"))]
-        fn serialize_newtype_variant<T: ?Sized + Serialize>(self, _: &'static str, _: u32, _: &'static str, _: &T) -> Result<Value, Error> { Err(Error) }
-        #[cfg(feature = "nested")]
-        fn serialize_seq(self, _: Option<usize>) -> Result<SeqSer, Error> { Ok(SeqSer(Vec::new())) }
-        #[cfg(feature = "nested")]
-        fn serialize_tuple(self, _: usize) -> Result<SeqSer, Error> { Ok(SeqSer(Vec::new())) }
-        #[cfg(feature = "nested")]
-        fn serialize_tuple_struct(self, _: &'static str, _: usize) -> Result<SeqSer, Error> { Ok(SeqSer(Vec::new())) }
-        #[cfg(feature = "nested")]
-        fn serialize_tuple_variant(self, _: &'static str, _: u32, variant: &'static str, _: usize) -> Result<VariantSer, Error> { Ok(VariantSer(variant, Vec::new())) }
-        #[cfg(feature = "nested")]
-        fn serialize_map(self, _: Option<usize>) -> Result<MapSer, Error> { Ok(MapSer(Vec::new(), None)) }
-        #[cfg(feature = "nested")]
-        fn serialize_struct(self, _: &'static str, _: usize) -> Result<MapSer, Error> { Ok(MapSer(Vec::new(), None)) }
-        #[cfg(feature = "nested")]
-        fn serialize_struct_variant(self, _: &'static str, _: u32, variant: &'static str, _: usize) -> Result<VariantSer, Error> { Ok(VariantSer(variant, Vec::new())) }
-        #[cfg(not(feature = "nested"))]
-        fn serialize_seq(self, _: Option<usize>) -> Result<SeqSer, Error> { Err(Error) }
-        #[cfg(not(feature = "nested"))]
-        fn serialize_tuple(self, _: usize) -> Result<SeqSer, Error> { Err(Error) }
-        #[cfg(not(feature = "nested"))]
-        fn serialize_tuple_struct(self, _: &'static str, _: usize) -> Result<SeqSer, Error> { Err(Error) }
-        #[cfg(not(feature = "nested"))]
-        fn serialize_tuple_variant(self, _: &'static str, _: u32, _: &'static str, _: usize) -> Result<VariantSer, Error> { Err(Error) }
-        #[cfg(not(feature = "nested"))]
-        fn serialize_map(self, _: Option<usize>) -> Result<MapSer, Error> { Err(Error) }
-        #[cfg(not(feature = "nested"))]
-        fn serialize_struct(self, _: &'static str, _: usize) -> Result<MapSer, Error> { Err(Error) }
-        #[cfg(not(feature = "nested"))]
-        fn serialize_struct_variant(self, _: &'static str, _: u32, _: &'static str, _: usize) -> Result<VariantSer, Error> { Err(Error) }
+                fn serialize_seq(self, _: Option<usize>) -> Result<SeqSer, Error> { Ok(SeqSer(Vec::new())) }
+                fn serialize_tuple(self, _: usize) -> Result<SeqSer, Error> { Ok(SeqSer(Vec::new())) }
+                fn serialize_tuple_struct(self, _: &'static str, _: usize) -> Result<SeqSer, Error> { Ok(SeqSer(Vec::new())) }
+                fn serialize_tuple_variant(self, _: &'static str, _: u32, variant: &'static str, _: usize) -> Result<VariantSer, Error> { Ok(VariantSer(variant, Vec::new())) }
+                fn serialize_map(self, _: Option<usize>) -> Result<MapSer, Error> { Ok(MapSer(Vec::new(), None)) }
+                fn serialize_struct(self, _: &'static str, _: usize) -> Result<MapSer, Error> { Ok(MapSer(Vec::new(), None)) }
+                fn serialize_struct_variant(self, _: &'static str, _: u32, variant: &'static str, _: usize) -> Result<VariantSer, Error> { Ok(VariantSer(variant, Vec::new())) }
+
+
+
+
+
+
     }
 }
 
@@ -546,10 +524,19 @@ mod value_de {
 
     pub struct De(pub Value);
 
-    #[cfg(feature = "nested")]
-    struct SeqDe(std::vec::IntoIter<Value>);
-    #[cfg(feature = "nested")]
-    impl<'de> de::SeqAccess<'de> for SeqDe {
+    fn owned_object(v: &Value) -> Vec<(String, Value)> {
+        let o = v.as_object().unwrap_or(&[]);
+        let mut out = Vec::with_capacity(o.len());
+        let mut i = 0;
+        while i < o.len() {
+            out.push((o[i].0.to_owned(), o[i].1));
+            i += 1;
+        }
+        out
+    }
+
+        struct SeqDe(std::vec::IntoIter<Value>);
+        impl<'de> de::SeqAccess<'de> for SeqDe {
         type Error = Error;
         fn next_element_seed<T: DeserializeSeed<'de>>(&mut self, seed: T) -> Result<Option<T::Value>> {
             match self.0.next() {
@@ -558,10 +545,8 @@ mod value_de {
             }
         }
     }
-    #[cfg(feature = "nested")]
-    struct MapDe(std::vec::IntoIter<(String, Value)>, Option<Value>);
-    #[cfg(feature = "nested")]
-    impl<'de> de::MapAccess<'de> for MapDe {
+        struct MapDe(std::vec::IntoIter<(String, Value)>, Option<Value>);
+        impl<'de> de::MapAccess<'de> for MapDe {
         type Error = Error;
         fn next_key_seed<K: DeserializeSeed<'de>>(&mut self, seed: K) -> Result<Option<K::Value>> {
             match self.0.next() {
@@ -621,12 +606,10 @@ mod value_de {
             match v.tag {
                 T_NULL => visitor.visit_unit(),
                 T_BOOL => visitor.visit_bool(v.b != 0),
-                T_NUMBER => visitor.visit_u64(v.n),
-                T_STRING => visitor.visit_string(v.take_string()),
-                #[cfg(feature = "nested")]
-                T_ARRAY => visitor.visit_seq(SeqDe(v.take_array().into_iter())),
-                #[cfg(feature = "nested")]
-                T_OBJECT => visitor.visit_map(MapDe(v.take_object().into_iter(), None)),
+                T_NUMBER => visitor.visit_u64(u64::from_le_bytes(v.n)),
+                T_STRING => visitor.visit_string(v.as_str().unwrap_or("").to_owned()),
+                T_ARRAY => visitor.visit_seq(SeqDe(v.as_array().unwrap_or(&[]).to_vec().into_iter())),
+                T_OBJECT => visitor.visit_map(MapDe(owned_object(&v).into_iter(), None)),
                 _ => Err(Error),
             }
         }
@@ -639,10 +622,9 @@ mod value_de {
         fn deserialize_enum<V: Visitor<'de>>(self, _: &'static str, _: &'static [&'static str], visitor: V) -> Result<V::Value> {
             let v = self.0;
             match v.tag {
-                T_STRING => visitor.visit_enum(EnumDe(v.take_string(), None)),
-                #[cfg(feature = "nested")]
+                T_STRING => visitor.visit_enum(EnumDe(v.as_str().unwrap_or("").to_owned(), None)),
                 T_OBJECT => {
-                    let mut o = v.take_object();
+                    let mut o = owned_object(&v);
                     if o.len() != 1 {
                         return Err(Error);
                     }
